@@ -321,3 +321,55 @@ register(c_to_python_scalar, id="C11.Context._to_python.scalars", prop="C11", ta
 register(c_set_scalar, id="C11.Context.set.scalars", prop="C11", target=method("microjs.context", "Context.set"), native=_native_ctx("set"), heap_inputs=True)
 register(c_get_scalar, id="C11.Context.get.scalars", prop="C11", target=method("microjs.context", "Context.get"), native=_native_ctx("get"), heap_inputs=True)
 register(c_set_get_roundtrip, id="C11.Context.set-get.roundtrip", prop="C11", target=method("microjs.context", "Context.set"), native=_native_ctx("set"), heap_inputs=True)
+
+
+# ---- fixed probes (regressions of repaired defects; known deviations are listed in /verif/known_findings.json) ---------------
+def _cyclic_input(Context):
+    """x = [1]; cyc = [1, 2]; cyc.append(cyc): set keeps sharing and cycles, get returns the same shape"""
+    c = Context()
+    x, cyc = [1], [1, 2]
+    cyc.append(cyc)
+    c.set("sh", [x, x])
+    c.set("cy", cyc)
+    r = c.get("cy")
+    return f"{c.eval('sh[0] === sh[1]')} {c.eval('cy[2] === cy && cy.length === 3')} {r[2] is r}"
+
+
+def _tuple_input(Context):
+    """ctx.set("t", (1, (2, 3)))"""
+    c = Context()
+    c.set("t", (1, (2, 3)))
+    return c.eval("JSON.stringify(t)")
+
+
+def _deep_nesting(Context):
+    """a 5000-deep list given to set, a 5000-deep array returned by eval"""
+    c = Context()
+    d = []
+    for _ in range(5000):
+        d = [d]
+    out = []
+    for f in (lambda: c.set("deep", d), lambda: c.eval("var a = []; for (var i = 0; i < 5000; i++) a = [a]; a")):
+        try:
+            f()
+            out.append("ok")
+        except Exception as e:  # noqa
+            out.append(type(e).__name__)
+    return " ".join(out)
+
+
+def _nested_none(Context):
+    """a host function returning [None, {"k": None}] and one returning None"""
+    c = Context()
+    c.set("h", lambda: [None, {"k": None}])
+    c.set("n", lambda: None)
+    return c.eval("var v = h(); [v[0] === null, v[1].k === null, n() === undefined]")
+
+
+PROBES_C11 = [
+    ("cyclic-and-shared-input", _cyclic_input, "True True True"),
+    ("tuple-input", _tuple_input, "[1,[2,3]]"),
+    ("deep-nesting-is-a-JSError", _deep_nesting, "JSError JSError"),
+    ("nested-None-from-a-callable", _nested_none, [True, True, True]),
+]
+groups.register_probes("C11", PROBES_C11)
